@@ -1006,9 +1006,10 @@ fn run_hasher<H: ElementHasher<BaseField = BaseElement> + Sync>(tag: &str, damag
         if ci >= damage_first || trace_len > 16 {
             continue;
         }
-        // (the FRI partition count is layout-only metadata; it sits 10 bytes before the end of the proof,
-        // in front of the nonce and the GKR-proof option, which here is 1 + 8 bytes when present)
-        let partition_byte = bytes.len() - 10 - if shape == Shape::Lagrange { 8 } else { 0 };
+        // (the FRI partition count is layout-only metadata; it is the last byte of the FRI proof, in front of the nonce and the
+        // GKR-proof option)
+        // (computed from the proof's own tail: the 8-byte nonce and the serialized GKR-proof option follow it)
+        let partition_byte = bytes.len() - 1 - 8 - proof.gkr_proof.to_bytes().len();
         let check = |b: &[u8], desc: String, at: usize, c: &mut Counts| {
             c.damaged += 1;
             take_log();
@@ -1018,7 +1019,15 @@ fn run_hasher<H: ElementHasher<BaseField = BaseElement> + Sync>(tag: &str, damag
             })) {
                 Ok(false) => {},
                 Ok(true) if at == partition_byte => {},
-                Ok(true) => fail(format!("proof with {desc} is accepted: {what}")),
+                Ok(true) => {
+                    let p2 = Proof::from_bytes(b).unwrap();
+                    let mut diff = Vec::new();
+                    if p2.pow_nonce != proof.pow_nonce { diff.push(format!("pow_nonce {} -> {}", proof.pow_nonce, p2.pow_nonce)); }
+                    if p2.gkr_proof != proof.gkr_proof { diff.push(format!("gkr_proof {:?} -> {:?}", proof.gkr_proof, p2.gkr_proof)); }
+                    if p2.fri_proof.to_bytes() != proof.fri_proof.to_bytes() { diff.push("fri_proof".to_string()); }
+                    if p2.ood_frame.to_bytes() != proof.ood_frame.to_bytes() { diff.push("ood_frame".to_string()); }
+                    fail(format!("proof with {desc} is accepted (fields that differ: {diff:?}; partition byte at {partition_byte}): {what}"))
+                },
                 Err(_) if last_panic().starts_with(file!()) => c.air_refusals += 1,
                 Err(_) => fail(format!("parsing/verifying a proof with {desc} panicked at {}: {what}", last_panic())),
             }
